@@ -38,7 +38,7 @@ def sq_tol(kff, kgg, n, sigma):
 
 def hd(ctx, F, G, sigma):
     """persim.heat, required to be a finite non-negative real number."""
-    out = ctx.call(heat, arr(F), arr(G), sigma)
+    out = ctx.call(heat, arr(F), arr(G), sigma=sigma)
     ok = np.ndim(out) == 0 and not np.iscomplexobj(out)
     ctx.require(ok, "not_a_real_scalar", lambda: "heat returned %r" % (out,))
     v = float(out)
